@@ -1,6 +1,7 @@
 package checks
 
 import (
+	"encoding/json"
 	"fmt"
 	"os"
 	"path/filepath"
@@ -55,6 +56,18 @@ func c05Gen(c *engine.C) engine.Case {
 		c.Tag("gap-before-parenthesis")
 	}
 	layout.BeforeParen = gap
+	// a second line in the configuration: the caller's own helper (called right before a site by the
+	// "other-call" prefix) is renamed too
+	second := []string{"", "setUpEverything", "p2"}[c.Choose(3, "second-config-entry")]
+	helperFirst := false
+	if second != "" {
+		c.Tag("two-config-entries")
+		helperFirst = c.Bool("helper-entry-listed-first")
+	}
+	throughCLI := c.Bool("through-coca-refactor")
+	if throughCLI {
+		c.Tag("cli")
+	}
 	iface := c.Bool("declaration-in-interface")
 	if iface {
 		c.Tag("interface-declaration")
@@ -105,14 +118,43 @@ func c05Gen(c *engine.C) engine.Case {
 	for i, cls := range classes {
 		files = append(files, FileSpec{Path: paths[i], Content: jg.Print(cls, layout)})
 	}
-	return func() engine.Result { return c05Check(files, classes, oldName, newName) }
+	renames := []c05Rename{{"app", "Target", oldName, newName}}
+	if second != "" {
+		if helperFirst {
+			renames = append([]c05Rename{{"app", "Caller", "prepare", second}}, renames...)
+		} else {
+			renames = append(renames, c05Rename{"app", "Caller", "prepare", second})
+		}
+	}
+	return func() engine.Result { return c05Check(files, classes, renames, throughCLI) }
 }
 
-type c05Edit struct{ off, n int }
+type c05Edit struct {
+	off, n int
+	new    string
+}
 
-func c05Check(files []FileSpec, classes []*jg.Class, oldName, newName string) engine.Result {
-	res := engine.Result{InputKey: filesKey(files) + oldName + "->" + newName, Nontrivial: true,
-		Input: map[string]interface{}{"files": filesInput(files), "rename": "app.Target." + oldName + " -> app.Target." + newName}}
+// c05Rename is one line of the rename configuration: <Pkg>.<Class>.<Old> -> <Pkg>.<Class>.<New>
+type c05Rename struct{ Pkg, Class, Old, New string }
+
+func (r c05Rename) line() string {
+	return r.Pkg + "." + r.Class + "." + r.Old + " -> " + r.Pkg + "." + r.Class + "." + r.New
+}
+
+func c05Check(files []FileSpec, classes []*jg.Class, renames []c05Rename, throughCLI bool) engine.Result {
+	oldName, newName := renames[0].Old, renames[0].New
+	for _, r := range renames {
+		if r.Class == "Target" {
+			oldName, newName = r.Old, r.New
+		}
+	}
+	var confLines []string
+	for _, r := range renames {
+		confLines = append(confLines, r.line())
+	}
+	conf := strings.Join(confLines, "\n")
+	res := engine.Result{InputKey: filesKey(files) + conf + fmt.Sprint(throughCLI), Nontrivial: true,
+		Input: map[string]interface{}{"files": filesInput(files), "rename": confLines, "through_coca_refactor": throughCLI}}
 	if why := validateJava(files); why != "" {
 		res.Skipped = why
 		return res
@@ -137,8 +179,10 @@ func c05Check(files []FileSpec, classes []*jg.Class, oldName, newName string) en
 			return res
 		}
 		for _, m := range cls.Methods() {
-			if cls.Pkg == "app" && cls.Name == "Target" && m.Name == oldName {
-				edits[path] = append(edits[path], c05Edit{m.NamePos.Offset, len(oldName)})
+			for _, r := range renames {
+				if cls.Pkg == r.Pkg && cls.Name == r.Class && m.Name == r.Old {
+					edits[path] = append(edits[path], c05Edit{m.NamePos.Offset, len(r.Old), r.New})
+				}
 			}
 			var fn *core_domain.CodeFunction
 			for k := range node.Functions {
@@ -156,8 +200,10 @@ func c05Check(files []FileSpec, classes []*jg.Class, oldName, newName string) en
 			}
 			for j, s := range m.Sites {
 				cl := fn.FunctionCalls[j]
-				if cl.Package+"."+cl.NodeName == "app.Target" && cl.FunctionName == oldName {
-					edits[path] = append(edits[path], c05Edit{s.Pos.Offset, len(oldName)})
+				for _, r := range renames {
+					if cl.Package+"."+cl.NodeName == r.Pkg+"."+r.Class && cl.FunctionName == r.Old {
+						edits[path] = append(edits[path], c05Edit{s.Pos.Offset, len(r.Old), r.New})
+					}
 				}
 			}
 		}
@@ -170,13 +216,32 @@ func c05Check(files []FileSpec, classes []*jg.Class, oldName, newName string) en
 		es := edits[path]
 		sort.Slice(es, func(a, b int) bool { return es[a].off > es[b].off })
 		for _, e := range es {
-			content = content[:e.off] + newName + content[e.off+e.n:]
+			content = content[:e.off] + e.new + content[e.off+e.n:]
 			nEdits++
 		}
 		expected[path] = content
 	}
-	app := rename.RenameMethodApp(deps)
-	app.Refactoring("app.Target." + oldName + " -> app.Target." + newName)
+	if throughCLI {
+		// what `coca refactor -R <config> -d <deps.json>` does with the same model and the same configuration
+		b, err := json.Marshal(deps)
+		if err != nil {
+			panic(err)
+		}
+		if err := os.WriteFile(filepath.Join(root, "deps.json"), b, 0o644); err != nil {
+			panic(err)
+		}
+		if err := os.WriteFile(filepath.Join(root, "rename.conf"), []byte(conf+"\n"), 0o644); err != nil {
+			panic(err)
+		}
+		r := runCLI(root, "refactor", "-R", "rename.conf", "-d", "deps.json")
+		if r.Exit != 0 {
+			res.Violations = append(res.Violations, engine.V("cli", "exit-status", "coca refactor -R exited %d: %s", r.Exit, trimTo(r.Stderr+r.Stdout, 600)))
+			return res
+		}
+	} else {
+		app := rename.RenameMethodApp(deps)
+		app.Refactoring(conf)
+	}
 	var out []string
 	for i := range files {
 		path := filepath.Join(root, files[i].Path)
